@@ -98,6 +98,10 @@ func genC15(r *Rng, tier string, idx int) *Plan {
 			p.Faults = append(p.Faults, Fault{Site: "idp.token", Nth: 1, Kind: r.Pick([]string{"reset-before", "reset-after", "truncated"})},
 				Fault{Site: "idp.token", Nth: r.Range(2, 3), Kind: r.Pick([]string{"reset-before", "reset-after", "500"})},
 				Fault{Site: "net.dial", Nth: r.Range(3, 6), Kind: "refused"})
+			if r.Bool() {
+				// ... or the caller gives up while the provider is serving the request
+				p.Faults = []Fault{{Site: "idp.token", Nth: r.Range(1, 3), Kind: "ctx-cancel"}, {Site: "store." + r.Pick(storeMethods), Nth: r.Range(1, 8), Kind: "ctx-cancel"}}
+			}
 		}
 		b1, b2 := tokenBodies[(idx/6)%len(tokenBodies)], tokenBodies[r.Intn(len(tokenBodies))]
 		p.Ops = append(p.Ops, Op{ID: nid(), Kind: "idp-raw", S: b1, D: 1}, Op{ID: nid(), Kind: "nav", Path: t}, Op{ID: nid(), Kind: "nav", Path: t},
